@@ -7,6 +7,8 @@ import (
 	"sort"
 	"strconv"
 	"strings"
+	"sync/atomic"
+	"time"
 
 	"github.com/spyzhov/ajson"
 )
@@ -21,6 +23,13 @@ func init() {
 type Session struct {
 	handles     []*ajson.Node
 	softHandles bool // a missing handle ends the history (probe pass) instead of the process
+	setters     int  // number of setter calls so far: odd ones go through the generic Set
+	poisoned    bool // a cycle was seen: no further library call (they would recurse without end)
+}
+
+func (s *Session) generic() bool {
+	s.setters++
+	return s.setters%2 == 1
 }
 
 func (s *Session) numbering() (order []*ajson.Node, num map[*ajson.Node]int) {
@@ -106,6 +115,9 @@ func cacheStr(num map[*ajson.Node]int, c interface{}) string {
 }
 
 func (s *Session) dump() string {
+	if s.poisoned {
+		return "cyclic-tree"
+	}
 	order, num := s.numbering()
 	datas := map[*[]byte]int{}
 	var parts []string
@@ -248,6 +260,8 @@ func marshalObs(n *ajson.Node) string {
 	if err != nil {
 		return errCode(err)
 	}
+	// the result belongs to the caller: growing it must not reach any document (the guarded input buffers notice)
+	out = append(out[:len(out):cap(out)], 0xEE)[:len(out)]
 	if n != nil && !n.IsDirty() {
 		return "ok " + hexOrDash(out)
 	}
@@ -265,12 +279,82 @@ func canonOfJSON(out []byte) string {
 	return "okc " + canonValue(v)
 }
 
-// Exec runs one `heap` request (fields after "heap") and returns the canonical observation.
-func (s *Session) Exec(f []string) (obs string) {
+// cyclic: some node reachable from a handle is its own ancestor (by parent pointers) or its own descendant (by children maps).
+// Every recursive function of the library (Marshal, Unpack, Path, String, Eq, …) then recurses until the process dies, so the
+// session refuses to go on once this is seen.
+func (s *Session) cyclic() *ajson.Node {
+	order, _ := s.numbering()
+	for _, n := range order {
+		c := ajson.VerifNodeState(n).Parent
+		for steps := 0; c != nil; steps++ {
+			if c == n || steps > len(order)+1 {
+				return n
+			}
+			c = ajson.VerifNodeState(c).Parent
+		}
+	}
+	// children maps: depth-first with an "on the current path" mark
+	state := map[*ajson.Node]int{}
+	var bad *ajson.Node
+	var visit func(n *ajson.Node)
+	visit = func(n *ajson.Node) {
+		if n == nil || bad != nil || state[n] == 2 {
+			return
+		}
+		if state[n] == 1 {
+			bad = n
+			return
+		}
+		state[n] = 1
+		for _, c := range ajson.VerifNodeState(n).Children {
+			visit(c)
+		}
+		state[n] = 2
+	}
+	for _, h := range s.handles {
+		visit(h)
+	}
+	return bad
+}
+
+// Exec runs one `heap` request (fields after "heap") and returns the canonical observation. The library runs on a goroutine of
+// its own: a call that never comes back (an endless walk over a cyclic parent chain) is abandoned after hangLimit — the
+// goroutine keeps spinning on the abandoned session's nodes, the session is closed, and the stream goes on with the next history.
+func (s *Session) Exec(f []string) string {
+	if s.poisoned && f[0] != "reset" {
+		return "cyclic-tree"
+	}
+	ch := make(chan string, 1)
+	go func() { ch <- s.execInner(f) }()
+	select {
+	case obs := <-ch:
+		return obs
+	case <-time.After(hangLimit):
+		s.poisoned = true
+		abandoned++
+		atomic.StoreInt64(&opDeadline, 0)
+		deadlineStack = nil
+		if abandoned > 4 {
+			fatal("more than 4 library calls never returned; last: %s", strings.Join(f, " "))
+		}
+		return "hang"
+	}
+}
+
+const hangLimit = 15 * time.Second
+
+var abandoned int
+
+func (s *Session) execInner(f []string) (obs string) {
 	noteOp(f)
+	defer opDone()
 	defer func() {
 		if r := recover(); r != nil {
 			obs = fmt.Sprintf("panic %v", r)
+		}
+		if f[0] != "dump" && f[0] != "fmt" && !s.poisoned && s.cyclic() != nil {
+			s.poisoned = true
+			obs = "cyclic-tree after " + obs
 		}
 	}()
 	bindNode := func(n *ajson.Node, err error) string {
@@ -284,6 +368,8 @@ func (s *Session) Exec(f []string) (obs string) {
 	switch f[0] {
 	case "reset":
 		s.handles = nil
+		s.setters = 0
+		s.poisoned = false
 		return "ok"
 	case "fmt":
 		return "ok"
@@ -309,19 +395,52 @@ func (s *Session) Exec(f []string) (obs string) {
 		return bindNode(ajson.ArrayNode(string(unhex(f[1])), s.ids(f[2])), nil)
 	case "obj":
 		return bindNode(ajson.ObjectNode(string(unhex(f[1])), s.kv(f[2])), nil)
+	// every other setter call goes through the generic Set(value interface{}), which must dispatch to the same typed setter
 	case "setnull":
+		if s.generic() {
+			return unitStr(s.node(f[1]).Set(nil))
+		}
 		return unitStr(s.node(f[1]).SetNull())
 	case "setnum":
-		return unitStr(s.node(f[1]).SetNumeric(bitsOf(f[2])))
+		v := bitsOf(f[2])
+		if s.generic() {
+			if v == math.Trunc(v) && math.Abs(v) < 1<<31 && !(v == 0 && math.Signbit(v)) {
+				switch int64(v) & 3 {
+				case 0:
+					return unitStr(s.node(f[1]).Set(int(v)))
+				case 1:
+					return unitStr(s.node(f[1]).Set(int64(v)))
+				case 2:
+					return unitStr(s.node(f[1]).Set(float32(v)))
+				}
+			}
+			return unitStr(s.node(f[1]).Set(v))
+		}
+		return unitStr(s.node(f[1]).SetNumeric(v))
 	case "setstr":
+		if s.generic() {
+			return unitStr(s.node(f[1]).Set(string(unhex(f[2]))))
+		}
 		return unitStr(s.node(f[1]).SetString(string(unhex(f[2]))))
 	case "setbool":
+		if s.generic() {
+			return unitStr(s.node(f[1]).Set(f[2] == "1"))
+		}
 		return unitStr(s.node(f[1]).SetBool(f[2] == "1"))
 	case "setarr":
+		if s.generic() {
+			return unitStr(s.node(f[1]).Set(s.ids(f[2])))
+		}
 		return unitStr(s.node(f[1]).SetArray(s.ids(f[2])))
 	case "setobj":
+		if s.generic() {
+			return unitStr(s.node(f[1]).Set(s.kv(f[2])))
+		}
 		return unitStr(s.node(f[1]).SetObject(s.kv(f[2])))
 	case "setnode":
+		if s.generic() {
+			return unitStr(s.node(f[1]).Set(s.node(f[2])))
+		}
 		return unitStr(s.node(f[1]).SetNode(s.node(f[2])))
 	case "apparr":
 		return unitStr(s.node(f[1]).AppendArray(s.ids(f[2])...))
@@ -682,6 +801,9 @@ func (g *HistGen) maybeBindChild(recv string) {
 
 // Step performs one random operation.
 func (g *HistGen) Step() {
+	if g.s.poisoned {
+		return // a cyclic tree: the generator itself walks parent chains
+	}
 	r := g.r
 	switch k := r.Intn(40); {
 	case k < 2:
